@@ -424,10 +424,13 @@ theorem mem_mergeFwdFiles {cum : Bool} {fs : List FwdFile} (hok : ∀ f ∈ fs, 
 theorem optList_some {α : Type} (l : List α) : optList (some l) = l := rfl
 theorem optList_none {α : Type} : optList (none : Option (List α)) = [] := rfl
 
-theorem dict_prepare_all (d : Dict) (e : KeyId × Bytes × ValId) : e ∈ d.prepare.all ↔ e ∈ d.all := by
+theorem dict_prepare_all (b : Bool) (d : Dict) (e : KeyId × Bytes × ValId) : e ∈ (d.prepare b).all ↔ e ∈ d.all := by
   unfold Dict.prepare
   cases h : d.imm with
-  | some p => simp [h]
+  | some p =>
+    cases p with
+    | nil => cases b <;> simp [h, mem_dict_all, optList, Dict.files]
+    | cons x t => simp [h]
   | none => simp [mem_dict_all, h, optList, Dict.files]
 
 theorem dict_flush_all (d : Dict) (e : KeyId × Bytes × ValId) : e ∈ d.flush.all ↔ e ∈ d.all := by
@@ -458,10 +461,13 @@ theorem dict_compact_all (d : Dict) (e : KeyId × Bytes × ValId) : e ∈ d.comp
   · simp [h, mem_dict_all, Dict.files]
   · simp [h]
 
-theorem inv_prepare_all (d : Inv) (e : ValId × SeriesId) : e ∈ d.prepare.all ↔ e ∈ d.all := by
+theorem inv_prepare_all (b : Bool) (d : Inv) (e : ValId × SeriesId) : e ∈ (d.prepare b).all ↔ e ∈ d.all := by
   unfold Inv.prepare
   cases h : d.imm with
-  | some p => simp [h]
+  | some p =>
+    cases p with
+    | nil => cases b <;> simp [h, mem_inv_all, optList, Inv.files]
+    | cons x t => simp [h]
   | none => simp [mem_inv_all, h, optList, Inv.files]
 
 theorem inv_flush_all (d : Inv) (e : ValId × SeriesId) : e ∈ d.flush.all ↔ e ∈ d.all := by
@@ -492,10 +498,13 @@ theorem inv_compact_all (d : Inv) (e : ValId × SeriesId) : e ∈ d.compact.all 
   · simp [h, mem_inv_all, Inv.files]
   · simp [h]
 
-theorem fwd_prepare_all (d : Fwd) (e : KeyId × SeriesId × ValId) : e ∈ d.prepare.all ↔ e ∈ d.all := by
+theorem fwd_prepare_all (b : Bool) (d : Fwd) (e : KeyId × SeriesId × ValId) : e ∈ (d.prepare b).all ↔ e ∈ d.all := by
   unfold Fwd.prepare
   cases h : d.imm with
-  | some p => simp [h]
+  | some p =>
+    cases p with
+    | nil => cases b <;> simp [h, mem_fwd_all, optList, Fwd.files]
+    | cons x t => simp [h]
   | none => simp [mem_fwd_all, h, optList, Fwd.files]
 
 theorem fwd_flush_all (d : Fwd) (e : KeyId × SeriesId × ValId) : e ∈ d.flush.all ↔ e ∈ d.all := by
@@ -570,10 +579,10 @@ theorem good_of_views {st st' : State} (h : Good st)
 /-- every placement step keeps the invariant -/
 theorem step_good {F : Flags} {st : State} (h : Good st) (hl : LutSafe F st) (s : Step) : Good (st.step F s) := by
   cases s with
-  | prepareMeta => exact good_of_views h rfl rfl rfl rfl rfl (dict_prepare_all _) (fun _ => Iff.rfl) (fun _ => Iff.rfl)
+  | prepareMeta => exact good_of_views h rfl rfl rfl rfl rfl (dict_prepare_all _ _) (fun _ => Iff.rfl) (fun _ => Iff.rfl)
   | flushMeta => exact good_of_views h rfl rfl rfl rfl rfl (dict_flush_all _) (fun _ => Iff.rfl) (fun _ => Iff.rfl)
   | compactMeta => exact good_of_views h rfl rfl rfl rfl rfl (dict_compact_all _) (fun _ => Iff.rfl) (fun _ => Iff.rfl)
-  | prepareIndex => exact good_of_views h rfl rfl rfl rfl rfl (fun _ => Iff.rfl) (inv_prepare_all _) (fwd_prepare_all _)
+  | prepareIndex => exact good_of_views h rfl rfl rfl rfl rfl (fun _ => Iff.rfl) (inv_prepare_all _ _) (fwd_prepare_all _ _)
   | flushIndex => exact good_of_views h rfl rfl rfl rfl rfl (fun _ => Iff.rfl) (inv_flush_all _) (fwd_flush_all _)
   | compactIndex =>
     exact good_of_views h rfl rfl rfl rfl rfl (fun _ => Iff.rfl) (inv_compact_all _) (fwd_compact_all _ hl.files)
@@ -589,10 +598,13 @@ theorem step_lutSafe {F : Flags} {st : State} (hl : LutSafe F st) (s : Step) : L
       apply hl.files f
       simp only [State.step, Fwd.prepare] at hf
       cases h : st.fwd.imm with
-      | some p => simpa [h, Fwd.files] using hf
+      | some p =>
+        cases p with
+        | nil => cases hb : F.prepareOnEmpty <;> simpa [h, hb, Fwd.files] using hf
+        | cons x t => simpa [h, Fwd.files] using hf
       | none => simpa [h, Fwd.files] using hf
     · intro hc e he
-      exact hl.small hc e ((fwd_prepare_all _ e).mp he)
+      exact hl.small hc e ((fwd_prepare_all _ _ e).mp he)
   | flushIndex =>
     constructor
     · intro f hf
